@@ -652,6 +652,8 @@ BODIES = [
     ("RG_rank1", "libcds/src/bitsequence/BitSequenceRG.cpp", "BitSequenceRG::rank1", 0),
     ("RG_select1", "libcds/src/bitsequence/BitSequenceRG.cpp", "BitSequenceRG::select1", 0),
     ("RG_select0", "libcds/src/bitsequence/BitSequenceRG.cpp", "BitSequenceRG::select0", 0),
+    ("DecodingTable_getSubstring", "utils/Coder/DecodingTable.cpp", "DecodingTable::getSubstring", 0),
+    ("DecodingTable_processChunk", "utils/Coder/DecodingTable.cpp", "DecodingTable::processChunk", 0),
     ("RG_BuildRank", "libcds/src/bitsequence/BitSequenceRG.cpp", "BitSequenceRG::BuildRank", 0),
 ]
 
